@@ -246,22 +246,36 @@ theorem sim_step {μ : Type} {M : Sem μ} {cfg : Cfg} {S out : List Instr} {cs :
           subst this
           exact (hR.known r v hv').1
         · rw [lookup_none_of_bank hkeys hb] at hv; cases hv
-      have hall : info.gate2 = true → ∀ r ∈ topRegs x,
-          ((rvAfter cfg [] (S.take (pc + 1))).lookup r).isSome = true := by
-        intro h2 r hr
+      have hall : info.gate2 = true →
+          (∀ r ∈ topRegs x, ((rvAfter cfg [] (S.take (pc + 1))).lookup r).isSome = true) ∨
+          (info.tag = "mov" ∧ ∃ r0 rest, x.ops = .reg r0 :: rest ∧ s.regs r0 = some 0) := by
+        intro h2
         rw [hrv]
         have hq2 := hqs
         unfold qstaticAt at hq2
         simp only [hsn, Option.isSome_none, Bool.false_or, Bool.and_eq_true] at hq2
         have hg2 : isGate2 cfg x = true := by simp [isGate2, hi, h2]
-        have hb : r.bank = bankQ := by
-          have := hq2.2
-          simp only [hg2, Bool.not_true, Bool.false_or, List.all_eq_true] at this
-          simpa using this r hr
-        obtain ⟨v', hv'⟩ := known_of_qstatic hqs hsn (topRegs_sub_regsOf x r hr) hb
-        have := win_lookup hb _ v' hv'
-        rw [List.reverse_reverse] at this
-        rw [this]; rfl
+        have hcl := hq2.2
+        simp only [hg2, Bool.not_true, Bool.false_or, Bool.or_eq_true] at hcl
+        rcases hcl with hallQ | hmv
+        · left
+          intro r hr
+          have hb : r.bank = bankQ := by
+            simpa using (List.all_eq_true.1 hallQ) r hr
+          obtain ⟨v', hv'⟩ := known_of_qstatic hqs hsn (topRegs_sub_regsOf x r hr) hb
+          have := win_lookup hb _ v' hv'
+          rw [List.reverse_reverse] at this
+          rw [this]; rfl
+        · right
+          unfold movFromElectron at hmv
+          simp only [Bool.and_eq_true] at hmv
+          obtain ⟨ht, hw⟩ := hmv
+          refine ⟨by simpa [isMovTag, hi] using ht, ?_⟩
+          split at hw
+          · rename_i r0 rest hops
+            have hk : K cfg S pc r0 = some 0 := by simpa [K] using hw
+            exact ⟨r0, rest, hops, (hR.known r0 0 hk).1⟩
+          · cases hw
       have hused : ∀ r ∈ topRegs x, r ∈ ([] : List Reg) ++ (S.take (pc + 1)).flatMap topRegs := by
         intro r hr
         rw [take_succ_of_get hx]
